@@ -133,6 +133,64 @@ func (m *Model) ruleDSN(r *Results) {
 		})
 	}
 	scan(fn, nil, "", 0)
+	// every set of query parameters that is changed is the one that is encoded into the connection
+	// string: url.URL.Query() hands out a fresh copy on every call, so a Set/Add/Del on a value
+	// nobody encodes is lost (the open mode never reaches SQLite, which then creates the file)
+	{
+		encoded := map[ssa.Value]bool{}
+		type mut struct {
+			v   ssa.Value
+			pos string
+			key string
+		}
+		var muts []mut
+		for g := range m.reachableLocal(fn) {
+			m.eachCall(g, func(c ssa.CallInstruction) {
+				f := c.Common().StaticCallee()
+				if f == nil || f.Signature.Recv() == nil || !isNamed(f.Signature.Recv().Type(), "net/url", "Values") || len(c.Common().Args) == 0 {
+					return
+				}
+				recv := stripConv(c.Common().Args[0])
+				switch f.Name() {
+				case "Encode":
+					encoded[recv] = true
+				case "Set", "Add", "Del":
+					k, _ := constString(c.Common().Args[1])
+					muts = append(muts, mut{recv, m.instrPos(c), k})
+				}
+			})
+		}
+		// (a value handed to a package helper that encodes its parameter is encoded)
+		for g := range m.reachableLocal(fn) {
+			m.eachCall(g, func(c ssa.CallInstruction) {
+				h := c.Common().StaticCallee()
+				if h == nil || !m.inPkg(h) || len(h.Blocks) == 0 {
+					return
+				}
+				for i, a := range c.Common().Args {
+					if i >= len(h.Params) || !isNamed(a.Type(), "net/url", "Values") {
+						continue
+					}
+					m.eachCall(h, func(c2 ssa.CallInstruction) {
+						f2 := c2.Common().StaticCallee()
+						if f2 != nil && f2.Name() == "Encode" && f2.Signature.Recv() != nil && isNamed(f2.Signature.Recv().Type(), "net/url", "Values") && len(c2.Common().Args) > 0 && stripConv(c2.Common().Args[0]) == ssa.Value(h.Params[i]) {
+							encoded[stripConv(a)] = true
+						}
+					})
+				}
+			})
+		}
+		lost := ""
+		for _, mu := range muts {
+			if _, isParam := mu.v.(*ssa.Parameter); isParam {
+				continue // a helper that is handed the values to fill in
+			}
+			if !encoded[mu.v] {
+				lost = mu.key + " at " + mu.pos
+			}
+		}
+		r.check(lost == "", rule, m.declName(fn)+" / the parameters that are set are the ones that are encoded", m.pos(fn.Pos()), "every url.Values that is changed is also encoded into the connection string", "a connection-string parameter ("+lost+") is set on a copy of the query values that is never encoded (url.URL.Query() returns a fresh copy each time): the setting - e.g. the open mode that forbids creating the file - never reaches SQLite")
+	}
 	if openCall == nil {
 		r.undecided(rule, "sql.Open call", m.pos(fn.Pos()), "no sql.Open call in %s", fn)
 		return
